@@ -79,6 +79,10 @@ impl StrComp {
 }
 impl Comp for StrComp {
     fn exec(&mut self, t: &[&str]) -> std::string::String {
+        if t[0] == "reloc" {
+            if let AnyStr::R(b) = &mut self.s { b.relocate(); }
+            return "ok".into();
+        }
         if t[0] == "new" {
             let cap: usize = t[2].parse().unwrap();
             self.s = match (t[1], cap) {
